@@ -11,7 +11,7 @@ FUNCTIONS = ["FixedLifetime._survival_by_year_id", "InflowDrivenDSM._compute_sto
 ASSUMPTIONS = ["time items strictly increasing", "survival table in [0,1], non-increasing with age; diagonal >= 1/20 for the stock-driven class",
                "scipy.linalg.solve_triangular satisfies its documented contract (lapack solver)"]
 OUTSIDE = ["n beyond the bound", "IEEE rounding", "LAPACK internals"]
-VARIANTS = 'computed before with another driver; result arrays as transposed views (2 label dims); inflow_at start / end; 33 time items on concrete 0/1 tables'
+VARIANTS = 'computed before with another driver; result arrays as transposed views (2 label dims); inflow_at start / end; 33 time items on concrete 0/1 tables; a second model of the same shape computed before the tables are read; shipped classes with inflow_at start / end'
 BOUNDS = {"quick": dict(n=[3, 4], extra=["-", "r2"], grids=dsm.GRIDS, classes="idsm, sdsm manual, sdsm lapack", table="free symbolic (every lifetime model)"),
           "thorough": dict(n=[3, 4, 5, 6], extra=["-", "r2", "r2xp2"], grids=dsm.GRIDS, classes="as quick")}
 for _t in BOUNDS.values():
